@@ -1,20 +1,29 @@
 (** C09 — A scope has one value owner, changed only with the current owner's consent.
-    Theorem statements only; proofs are in Proofs/ValueOwnerProofs{,2}.v about the model
-    Metadata/ValueOwner.v (definitions of [Inv], [holder], [consent], [deposit_ok], [signers_of]
-    are there).  [Inv] is the well-formedness of the start state: per scope denom either supply 0 and
-    no balance, or supply 1 held as one unit by one account whose scope exists; it holds of every
-    chain without scope tokens ([C09_init_wellformed]) and of every state reached from one. *)
+    Theorem statements only; proofs are in Proofs/ValueOwnerProofs{,2,3,4}.v about the model
+    Metadata/ValueOwner.v (definitions of [Inv], [holder], [consent], [deposit_ok], [signers_of],
+    [has_grant], [qdest] are there).  [Inv] is the well-formedness of the start state: per scope denom
+    either supply 0 and no balance, or supply 1 held as one unit by one account whose scope exists;
+    no marker has the address of the quarantine funds holder.  It holds of every chain without scope
+    tokens ([C09_init_wellformed]) and of every state reached from one.
+
+    The model's state carries the authz store (grants with expiration and remaining uses, consumed by
+    the signer checks), the block time, the sanctioned accounts, the quarantine opt-ins / auto-accepts
+    / records, and markers with their status; the operations are MsgWriteScope, MsgAddScopeDataAccess,
+    MsgUpdateValueOwners, MsgMigrateValueOwner, MsgDeleteScope, bank MsgSend and MsgMultiSend of scope
+    tokens, authz grant / revoke, marker administration (access lists and status), a later block
+    time, sanction / unsanction, quarantine opt-in / opt-out / auto-accept / accept / decline. *)
 From Coq Require Import ZArith NArith List Bool.
-From PV Require Import Metadata.ValueOwner Proofs.ValueOwnerProofs Proofs.ValueOwnerProofs2.
+From PV Require Import Metadata.ValueOwner Proofs.ValueOwnerProofs Proofs.ValueOwnerProofs2
+  Proofs.ValueOwnerProofs3 Proofs.ValueOwnerProofs4 Proofs.ValueOwnerAuthz.
 Import ListNotations.
 Open Scope Z_scope.
 
-Theorem C09_init_wellformed : forall specs markers wasm blocked, Inv (init specs markers wasm blocked).
+Theorem C09_init_wellformed : forall specs markers wasm blocked,
+  get markers QHOLD = None -> Inv (init specs markers wasm blocked).
 Proof. exact init_inv. Qed.
 Print Assumptions C09_init_wellformed.
 
-(** The invariant is kept by every history of scope writes, bulk updates, migrations, deletions,
-    bank sends of scope tokens, authz grants/revocations and marker access changes. *)
+(** The invariant is kept by every history of the eighteen operations. *)
 Theorem C09_invariant : forall ops s, Inv s -> Inv (run s ops).
 Proof. exact run_inv. Qed.
 Print Assumptions C09_invariant.
@@ -22,7 +31,8 @@ Print Assumptions C09_invariant.
 (** Token uniqueness, after every history and for every scope id: the bank supply of the scope's
     denom is 0 or 1; every balance of it is 0 or 1; at most one account has any; whoever has any
     holds the whole supply of 1 and the scope exists (no token without scope); a supply of 1 is
-    held by someone. *)
+    held by someone.  (An account includes the quarantine funds holder: a quarantined token is one
+    token held by one account.) *)
 Theorem C09_token_unique : forall ops s d, Inv s ->
   let s' := run s ops in
   (sup s' d = 0 \/ sup s' d = 1) /\
@@ -57,55 +67,254 @@ Proof. intros ops s d HI. apply value_owner_inv. apply run_inv. exact HI. Qed.
 Print Assumptions C09_owner_query_is_holder.
 
 (** Consent, uniformly over MsgWriteScope, MsgUpdateValueOwners, MsgMigrateValueOwner,
-    MsgDeleteScope and a bank MsgSend of the token: whenever a step, anywhere in a history, takes a
-    scope's token away from its holder [h] (to someone else or to nobody), then [h] is among the
-    signers of the message (for a bank send: is the sender), or [h] granted authz for this message
-    type to one of the signers, or [h] is a marker and one of the signers has withdraw access on it. *)
+    MsgDeleteScope, a bank MsgSend / MsgMultiSend of the token and the release of a quarantined
+    token: whenever a step, anywhere in a history, takes a scope's token away from its holder [h]
+    (to someone else or to nobody), then [h] is among the signers of the message (for a bank send:
+    is the sender), or [h] has, in the authz store of that moment, a grant for this message type to
+    one of the signers that is not expired at the block time of that moment and has a use left, or
+    [h] is a marker and one of the signers has withdraw access on it, or [h] is the quarantine funds
+    holder and the step is a quarantine MsgAccept (see [C09_quarantine_release_to_addressee]). *)
 Theorem C09_change_needs_consent : forall ops s o d h, Inv s ->
   let s1 := run s ops in
   holder s1 d = Some h -> holder (run_op s1 o) d <> Some h ->
   In h (signers_of o) \/
   (exists k g, kind_of o = Some k /\ In g (signers_of o) /\ has_grant s1 h g k = true) \/
-  (exists m g, marker_of s1 h = Some m /\ In g (signers_of o) /\ In g (mk_withdraw m)).
+  (exists m g, marker_of s1 h = Some m /\ In g (signers_of o) /\ In g (mk_withdraw m)) \/
+  (h = QHOLD /\ is_accept o = true).
 Proof. intros ops s o d h HI. apply run_op_consent. apply run_inv. exact HI. Qed.
 Print Assumptions C09_change_needs_consent.
 
+(** Read the other way round -- whatever the scope's parties, their roles and optional flags, the
+    rollup flag and the scope specification are, and whoever else signs (all owners, all required
+    parties, a contract, everybody in the cast): if the holder is not among the signers, has no live
+    grant to a signer for this message type, is not a marker on which a signer has withdraw access,
+    and the step is not the release of a quarantined transfer, the token stays where it is (the
+    message is rejected or does not touch it). *)
+Theorem C09_party_signatures_do_not_move_the_token : forall ops s o d h, Inv s ->
+  let s1 := run s ops in
+  holder s1 d = Some h -> ~ In h (signers_of o) ->
+  (forall k g, kind_of o = Some k -> In g (signers_of o) -> has_grant s1 h g k = false) ->
+  (forall m, marker_of s1 h = Some m -> forall g, In g (signers_of o) -> ~ In g (mk_withdraw m)) ->
+  (h = QHOLD -> is_accept o = false) ->
+  holder (run_op s1 o) d = Some h.
+Proof. intros ops s o d h HI. apply run_op_no_consent_stays. apply run_inv. exact HI. Qed.
+Print Assumptions C09_party_signatures_do_not_move_the_token.
+
+(** The same along a history, step by step (the grants, their expirations against the block time,
+    their remaining uses, the markers' access lists are those of the state the step starts from). *)
+Theorem C09_no_owner_change_without_consent_history : forall ops s, Inv s ->
+  forall i o, nth_error ops i = Some o ->
+  let si := run s (firstn i ops) in
+  forall d h, holder si d = Some h -> holder (run_op si o) d <> Some h ->
+  In h (signers_of o) \/
+  (exists k g, kind_of o = Some k /\ In g (signers_of o) /\ has_grant si h g k = true) \/
+  (exists m g, marker_of si h = Some m /\ In g (signers_of o) /\ In g (mk_withdraw m)) \/
+  (h = QHOLD /\ is_accept o = true).
+Proof. exact history_consent. Qed.
+Print Assumptions C09_no_owner_change_without_consent_history.
+
+(** What "has a grant" means: an authorization stored under (granter, grantee, message type) whose
+    expiration, if any, is not before the block time and whose remaining uses, if limited, are
+    positive.  Revoked, expired and used-up grants give no consent. *)
+Theorem C09_grant_meaning : forall s x y k,
+  has_grant s x y k = true <->
+  exists g, lookup (grants s) x y k = Some g /\
+            (match g_exp g with Some e => now s <= e | None => True end) /\
+            (match g_left g with Some n => 0 < n | None => True end).
+Proof. exact has_grant_spec. Qed.
+Print Assumptions C09_grant_meaning.
+
+Theorem C09_revoked_expired_used_up : forall s x y k,
+  has_grant (run_op s (ORevoke x y k)) x y k = false /\
+  (forall g e, lookup (grants s) x y k = Some g -> g_exp g = Some e -> e < now s -> has_grant s x y k = false) /\
+  (forall g n, lookup (grants s) x y k = Some g -> g_left g = Some n -> n <= 0 -> has_grant s x y k = false).
+Proof.
+  intros s x y k. split; [apply revoke_no_grant|].
+  split; [intros g e; apply expired_no_grant|intros g n; apply used_up_no_grant].
+Qed.
+Print Assumptions C09_revoked_expired_used_up.
+
+(** Grants are consumed.  The authz store keeps one authorization per (granter, grantee, message type)
+    along every history ([KeyUniq]); and whenever a token leaves a holder [h] that neither signed nor is
+    a marker (nor is it a quarantine release), one of the signers [g] had, in the store of that
+    moment, an authorization [gr] from [h] for this message type, live at that block time, and after
+    the step the store holds that authorization with ONE USE LESS ([after_use]: a generic one is
+    unchanged, a count authorization has one use less, its last use removed it) -- so a count
+    authorization with n uses carries at most n such changes. *)
+Theorem C09_one_grant_per_key : forall ops s, Inv s -> KeyUniq (grants s) -> KeyUniq (grants (run s ops)).
+Proof. exact run_keyuniq. Qed.
+Print Assumptions C09_one_grant_per_key.
+
+Theorem C09_grant_use_is_consumed : forall ops s o d h, Inv s -> KeyUniq (grants s) ->
+  let s1 := run s ops in
+  holder s1 d = Some h -> holder (run_op s1 o) d <> Some h ->
+  ~ In h (signers_of o) -> marker_of s1 h = None -> is_accept o = false ->
+  exists k g gr, kind_of o = Some k /\ In g (signers_of o) /\ lookup (grants s1) h g k = Some gr /\
+                 live (now s1) gr = true /\ lookup (grants (run_op s1 o)) h g k = after_use gr.
+Proof.
+  intros ops s o d h HI HU. apply run_op_grant_use; [apply run_inv; exact HI|apply run_keyuniq; assumption].
+Qed.
+Print Assumptions C09_grant_use_is_consumed.
+
 (** ... and whenever a step makes a restricted marker [n] the holder of a scope's token (from
     another holder or by minting), one of the signers (for a bank send: the sender) has deposit
-    access on [n]. *)
+    access on [n] (for a quarantine release: the quarantine funds holder, the sender of that
+    transfer, has). *)
 Theorem C09_restricted_marker_needs_deposit : forall ops s o d n, Inv s ->
   let s1 := run s ops in
   holder (run_op s1 o) d = Some n -> holder s1 d <> Some n ->
   forall m, marker_of s1 n = Some m -> mk_restricted m = true ->
-  exists g, In g (signers_of o) /\ In g (mk_deposit m).
+  (exists g, In g (signers_of o) /\ In g (mk_deposit m)) \/
+  (is_accept o = true /\ In QHOLD (mk_deposit m)).
 Proof. intros ops s o d n HI. apply run_op_deposit. apply run_inv. exact HI. Qed.
 Print Assumptions C09_restricted_marker_needs_deposit.
 
-(** Non-vacuity.  Users 1, 2; grantee 4; stranger 5; admin 6; restricted marker 8 (admin has withdraw
-    and deposit); roles 5 = OWNER, 3 = INVESTOR.  User 1 writes scope 1 with itself as value owner; the
-    stranger's attempt to take it is rejected; the grantee moves it into the marker with 1's authz grant
-    and the admin's deposit right; the admin's signature (withdraw access) moves it out to user 2; user
-    2 sends it on to 1 by a plain bank send; 1 deletes the scope and the token is burnt.  Scope 2 has
-    party rollup on, owner 1 required and investor 2 OPTIONAL, value owner 2: the required party alone
-    can neither delete it nor move the token; with 2's signature the deletion goes through. *)
+(** Markers as value owners, in EVERY status ([mk_status m] is arbitrary: proposed, finalized,
+    active, cancelled, destroyed), restricted or not, with or without forced transfer: a scope
+    leaves a marker only by a metadata message (never by a plain bank send or multi-send, never by a
+    quarantine release) one of whose signers has withdraw access on that marker -- a signature or an
+    authz grant "of the marker" is not enough. *)
+Theorem C09_marker_out_needs_withdraw : forall ops s o d h m, Inv s ->
+  let s1 := run s ops in
+  holder s1 d = Some h -> marker_of s1 h = Some m -> holder (run_op s1 o) d <> Some h ->
+  kind_of o <> None /\ exists g, In g (signers_of o) /\ In g (mk_withdraw m).
+Proof. intros ops s o d h m HI. apply run_op_marker_out. apply run_inv. exact HI. Qed.
+Print Assumptions C09_marker_out_needs_withdraw.
+
+(** A sanctioned value owner keeps its tokens whatever happens: no message moves, burns or
+    re-assigns the token of a scope whose value owner is sanctioned. *)
+Theorem C09_sanctioned_owner_keeps_token : forall ops s o d h, Inv s ->
+  let s1 := run s ops in
+  holder s1 d = Some h -> In h (sanctioned s1) -> holder (run_op s1 o) d = Some h.
+Proof. intros ops s o d h HI. apply run_op_sanctioned. apply run_inv. exact HI. Qed.
+Print Assumptions C09_sanctioned_owner_keeps_token.
+
+(** A quarantined token (held by the quarantine funds holder) goes to an account [n] only when the
+    funds holder itself "signs" or "grants" (it has no key: the correspondence run never lets it),
+    or by the MsgAccept of [n] for a quarantine record addressed to [n] that lists the token. *)
+Theorem C09_quarantine_release_to_addressee : forall ops s o d n, Inv s ->
+  let s1 := run s ops in
+  holder s1 d = Some QHOLD -> holder (run_op s1 o) d = Some n -> n <> QHOLD ->
+  In QHOLD (signers_of o) \/
+  (exists k g, kind_of o = Some k /\ In g (signers_of o) /\ has_grant s1 QHOLD g k = true) \/
+  (exists froms perm r, o = OAccept n froms perm /\ In r (qrecs s1) /\ accepted n froms r = true /\
+                        In d (denoms (q_coins r))).
+Proof. intros ops s o d n HI. apply run_op_release. apply run_inv. exact HI. Qed.
+Print Assumptions C09_quarantine_release_to_addressee.
+
+(** Bulk endpoints are all or nothing.  An accepted MsgUpdateValueOwners moves EVERY listed scope:
+    each had a holder [f] other than the new owner and is now held by where a transfer from [f] to
+    the new owner ends up ([qdest]: the new owner, or the quarantine funds holder when the new owner
+    quarantines [f]); no other scope changes holder.  An accepted MsgMigrateValueOwner moves EVERY
+    scope of the old owner, however many, and nothing else.  A rejected message changes nothing. *)
+Theorem C09_update_all_or_nothing : forall ops s sg ds p, Inv s ->
+  let s1 := run s ops in
+  (snd (step s1 (OUpdate sg ds p)) = false -> run_op s1 (OUpdate sg ds p) = s1) /\
+  (snd (step s1 (OUpdate sg ds p)) = true ->
+   let s2 := run_op s1 (OUpdate sg ds p) in
+   (forall d, In d ds -> exists f, holder s1 d = Some f /\ f <> p /\ holder s2 d = Some (qdest s1 f p)) /\
+   (forall d, ~ In d ds -> holder s2 d = holder s1 d)).
+Proof.
+  intros ops s sg ds p HI. split; [apply rejected_unchanged|]. apply update_all. apply run_inv. exact HI.
+Qed.
+Print Assumptions C09_update_all_or_nothing.
+
+Theorem C09_migrate_all_or_nothing : forall ops s sg e p, Inv s ->
+  let s1 := run s ops in
+  (snd (step s1 (OMigrate sg e p)) = false -> run_op s1 (OMigrate sg e p) = s1) /\
+  (snd (step s1 (OMigrate sg e p)) = true ->
+   let s2 := run_op s1 (OMigrate sg e p) in
+   e <> p /\
+   (forall d, holder s1 d = Some e -> holder s2 d = Some (qdest s1 e p)) /\
+   (forall d, holder s1 d <> Some e -> holder s2 d = holder s1 d)).
+Proof.
+  intros ops s sg e p HI. split; [apply rejected_unchanged|]. apply migrate_all. apply run_inv. exact HI.
+Qed.
+Print Assumptions C09_migrate_all_or_nothing.
+
+(** Non-vacuity.  Users 1, 2, 3; grantee 4; stranger 5; admin 6; markers 7 (unrestricted, PROPOSED),
+    8 (restricted, CANCELLED; admin has withdraw and deposit); roles 5 = OWNER, 3 = INVESTOR.
+    User 1 writes scope 1 with itself as value owner; the stranger's attempt to take it is rejected;
+    the grantee moves it into the cancelled restricted marker with 1's authz grant -- a count
+    authorization with ONE use that expires at time 10 -- and the admin's deposit right; the grant is
+    used up: a second grant expiring at 10 no longer helps at time 11; the stranger cannot take the
+    scope out of the cancelled marker, nor can a plain bank send; the admin's signature (withdraw
+    access) moves it out to user 2, who has opted into quarantine: the token is held by the quarantine
+    funds holder 11 until 2 accepts; user 3 cannot accept it; 2 sends it on to 1 by a bank
+    multi-send; 1 is sanctioned and cannot move or delete it; unsanctioned, 1 deletes the scope and
+    the token is burnt.  Scope 2 has party rollup on, owner 1 required and investor 2 OPTIONAL, value
+    owner 2: the required party alone can neither delete it nor move the token. *)
 Example C09_witness :
-  let mk := {| mk_restricted := true; mk_withdraw := [6%N]; mk_deposit := [6%N] |} in
-  let s0 := init [(1%N, [5%N])] [(8%N, mk)] [] [0%N] in
+  let mk7 := {| mk_restricted := false; mk_status := 1%N; mk_forced := false; mk_withdraw := [6%N]; mk_deposit := [] |} in
+  let mk8 := {| mk_restricted := true; mk_status := 4%N; mk_forced := false; mk_withdraw := [6%N]; mk_deposit := [6%N] |} in
+  let s0 := init [(1%N, [5%N])] [(7%N, mk7); (8%N, mk8)] [] [0%N] in
   let ps := [(1%N, 5%N, false)] in
   let s1 := run s0 [OWrite [1%N] 1%N ps 1%N [] false (Some 1%N)] in
   let s2 := run s1 [OUpdate [5%N] [1%N] 5%N] in
-  let s3 := run s2 [OGrant 1%N 4%N KUpdate; OUpdate [4%N; 6%N] [1%N] 8%N] in
-  let s4 := run s3 [OWrite [6%N] 1%N ps 1%N [] false (Some 2%N)] in
-  let s5 := run s4 [OSend 2%N 1%N 1%N 1] in
-  let s6 := run s5 [ODelete [1%N] 1%N] in
+  let s3 := run s2 [OGrant 1%N 4%N KUpdate (Some 10) (Some 1); OUpdate [4%N; 6%N] [1%N] 8%N] in
+  let s3' := run s3 [OGrant 8%N 5%N KUpdate (Some 10) None; OSetTime 11; OUpdate [5%N] [1%N] 5%N; OSend 8%N 5%N 1%N 1] in
+  let s4 := run s3' [OOptIn 2%N; OWrite [6%N] 1%N ps 1%N [] false (Some 2%N)] in
+  let s4' := run s4 [OAccept 3%N [8%N] false] in
+  let s5 := run s4' [OAccept 2%N [8%N] false; OMultiSend 2%N [(1%N, [1%N])]] in
+  let s5' := run s5 [OSanction 1%N; ODelete [1%N] 1%N; OSend 1%N 3%N 1%N 1] in
+  let s6 := run s5' [OUnsanction 1%N; ODelete [1%N] 1%N] in
   let ps2 := [(1%N, 5%N, false); (2%N, 3%N, true)] in
-  let t1 := run s6 [OWrite [1%N] 2%N ps2 1%N [] true (Some 2%N)] in
+  let t1 := run s6 [OOptOut 2%N; OWrite [1%N] 2%N ps2 1%N [] true (Some 2%N)] in
   let t2 := run t1 [ODelete [1%N] 2%N; OWrite [1%N] 2%N ps2 1%N [7%N] true (Some 1%N); OAddData [1%N] 2%N [9%N]] in
   let t3 := run t2 [ODelete [1%N; 2%N] 2%N] in
+  Inv s0 /\
   holder s1 1%N = Some 1%N /\ sup s1 1%N = 1 /\ holder s2 1%N = Some 1%N /\
-  holder s3 1%N = Some 8%N /\ holder s4 1%N = Some 2%N /\ holder s5 1%N = Some 1%N /\
+  holder s3 1%N = Some 8%N /\ grants s3 = [] /\ holder s3' 1%N = Some 8%N /\
+  holder s4 1%N = Some QHOLD /\ qrecs s4 = [{| q_to := 2%N; q_from := 8%N; q_coins := [(1%N, 1)] |}] /\
+  holder s4' 1%N = Some QHOLD /\ holder s5 1%N = Some 1%N /\ qrecs s5 = [] /\
+  holder s5' 1%N = Some 1%N /\ scope_of s5' 1%N <> None /\
   holder s6 1%N = None /\ sup s6 1%N = 0 /\ scope_of s6 1%N = None /\
-  snd (step s3 (OWrite [5%N] 1%N ps 1%N [] false (Some 5%N))) = false /\
   holder t1 2%N = Some 2%N /\ holder t2 2%N = Some 2%N /\ scope_of t2 2%N <> None /\
   holder t3 2%N = None /\ sup t3 2%N = 0.
-Proof. vm_compute. repeat split; try reflexivity. discriminate. Qed.
+Proof.
+  split; [apply init_inv; reflexivity|].
+  vm_compute. repeat split; try reflexivity; discriminate.
+Qed.
+
+(** Observations next to the property text (no clause is violated; DESIGN.md 7.3).  Users 1, 2;
+    grantee 4; stranger 5; role 5 = OWNER. *)
+
+(** While a transfer is quarantined the reported value owner is the quarantine funds holder (11);
+    neither the scope's owner (1, the sender) nor the addressee (2) can move or delete the scope until
+    2 accepts. *)
+Example C09_observation_quarantine_reports_escrow :
+  let s0 := init [(1%N, [5%N])] [] [] [0%N] in
+  let ps := [(1%N, 5%N, false)] in
+  let s1 := run s0 [OOptIn 2%N; OWrite [1%N] 1%N ps 1%N [] false (Some 1%N); OUpdate [1%N] [1%N] 2%N] in
+  let s2 := run s1 [ODelete [1%N] 1%N; ODelete [1%N; 2%N] 1%N; OUpdate [1%N; 2%N] [1%N] 1%N;
+                    OWrite [1%N; 2%N] 1%N ps 1%N [] false (Some 1%N); OSend 2%N 1%N 1%N 1] in
+  let s3 := run s2 [OAccept 2%N [1%N] false] in
+  value_owner s1 1%N = Some QHOLD /\ value_owner s2 1%N = Some QHOLD /\ scope_of s2 1%N <> None /\
+  value_owner s3 1%N = Some 2%N.
+Proof. vm_compute. repeat split; try reflexivity; discriminate. Qed.
+
+(** The funds holder is not a bank-blocked address: a token sent to it directly has no record, so no
+    MsgAccept releases it. *)
+Example C09_observation_direct_send_to_escrow_sticks :
+  let s0 := init [(1%N, [5%N])] [] [] [0%N] in
+  let ps := [(1%N, 5%N, false)] in
+  let s1 := run s0 [OWrite [1%N] 1%N ps 1%N [] false (Some 1%N); OSend 1%N QHOLD 1%N 1] in
+  let s2 := run s1 [OOptIn 1%N; OAccept 1%N [1%N; QHOLD] false; OUpdate [1%N] [1%N] 1%N; ODelete [1%N] 1%N] in
+  value_owner s1 1%N = Some QHOLD /\ qrecs s1 = [] /\ value_owner s2 1%N = Some QHOLD.
+Proof. vm_compute. repeat split; reflexivity. Qed.
+
+(** A count authorization with more than one use left cannot be used in the very second of its
+    expiration: GetAuthorization still returns it (the expiration is not BEFORE the block time), but
+    saving the decremented authorization fails (the expiration is not AFTER the block time) and the
+    whole message is rejected; with one use left (deleted, not saved) or unlimited uses (not saved)
+    the same message passes. *)
+Example C09_observation_count_grant_at_its_expiration_second :
+  let s0 := init [(1%N, [5%N])] [] [] [0%N] in
+  let ps := [(1%N, 5%N, false)] in
+  let s1 := run s0 [OWrite [1%N] 1%N ps 1%N [] false (Some 1%N)] in
+  let at10 (l : option Z) := run s1 [OGrant 1%N 4%N KUpdate (Some 10) l; OSetTime 10; OUpdate [4%N] [1%N] 5%N] in
+  let at9 := run s1 [OGrant 1%N 4%N KUpdate (Some 10) (Some 2); OSetTime 9; OUpdate [4%N] [1%N] 5%N] in
+  value_owner (at10 (Some 2)) 1%N = Some 1%N /\ value_owner (at10 (Some 1)) 1%N = Some 5%N /\
+  value_owner (at10 None) 1%N = Some 5%N /\ value_owner at9 1%N = Some 5%N /\
+  map g_left (grants at9) = [Some 1] /\ grants (at10 (Some 1)) = [].
+Proof. vm_compute. repeat split; reflexivity. Qed.
